@@ -229,5 +229,70 @@ theorem mustacheTypes_tie :
     mustacheLexStates = ["StateValue", "StateOperator1", "StateOperator2", "StateVariable", "StateComment",
                          "StateClosure"] := by decide
 
+/-! ### variant operations: which operand types each operator has a case for, which conversions exist
+
+`Gen.opCases`, `Gen.unsafeConvCases`, `Gen.safeConvCases` list every `case <Type>:` of the type switches in
+variants/*.go with the text of its body.  The support theorems tie the *set of cases* to the model's
+behaviour on a sample value of each type; the body theorems pin the case bodies themselves (an operand
+swap, a changed setter or a changed formula breaks them). -/
+
+def vtName : VT → String
+  | .null => "Null" | .integer => "Integer" | .long => "Long" | .float => "Float" | .double => "Double"
+  | .string => "String" | .boolean => "Boolean" | .dateTime => "DateTime" | .timeSpan => "TimeSpan"
+  | .object => "Object" | .array => "Array"
+
+/-- a value of each type on which no case fails for a reason other than the type (non-zero, in range) -/
+def sampleV : VT → V
+  | .null => .null | .integer => .int 3 | .long => .long 3 | .float => .float (Float32.ofBits 0x40400000)
+  | .double => .double (Float.ofBits 0x4008000000000000) | .string => .str [51] | .boolean => .bool true
+  | .dateTime => .dateTime 3 0 | .timeSpan => .timeSpan 3 | .object => .object 0 | .array => .array [.int 3]
+
+def isOpErr : R → Bool
+  | .err c => c == "OP_NOT_SUPPORTED"
+  | _ => false
+
+def isConvErr : R → Bool
+  | .err c => c == "CONV_NOT_SUPPORTED"
+  | _ => false
+
+def hasCase (cases : List (String × String × String)) (fn : String) (label : String) : Bool :=
+  cases.any fun e => e.1 == fn && e.2.1 == label
+
+def typeSwitchOps : List Op :=
+  [.add, .sub, .mul, .div, .mod, .pow, .and, .or, .xor, .lsh, .rsh, .equal, .notEqual, .more, .less, .moreEqual, .lessEqual]
+
+/-- second operand: of the first one's type, an integer count for the shifts -/
+def sampleArg (op : Op) (t : VT) : V :=
+  match op with
+  | .lsh | .rsh => .int 3
+  | _ => sampleV t
+
+/-- a binary operator supports an operand type exactly when its type switch has a case for it -/
+theorem opSupport_tie :
+    ∀ op ∈ typeSwitchOps, ∀ t ∈ VT.all, t ≠ .null →
+      hasCase opCases (opName op) (vtName t) = !isOpErr (binopCore .unsafe_ op (sampleV t) (sampleArg op t)) := by
+  decide
+
+theorem unopSupport_tie :
+    ∀ op ∈ [Op.not, Op.neg], ∀ t ∈ VT.all, t ≠ .null →
+      hasCase opCases (opName op) (vtName t) = !isOpErr (unop op (sampleV t)) := by
+  decide
+
+/-- the type-unsafe manager converts `from → to` exactly when `convertFrom<from>` has a case for `to`
+(`to` = Null, the source type, Object and String are answered before the switch) -/
+theorem unsafeConv_tie :
+    ∀ f ∈ VT.all, ∀ t ∈ VT.all, t ≠ .null → t ≠ f → t ≠ .object → t ≠ .string →
+      (hasCase unsafeConvCases "Convert" (vtName f) && hasCase unsafeConvCases ("convertFrom" ++ vtName f) (vtName t))
+        = !isConvErr (convertUnsafe (sampleV f) t) := by
+  decide
+
+/-- the type-safe manager's whitelist -/
+theorem safeConv_tie :
+    ∀ f ∈ VT.all, ∀ t ∈ VT.all, t ≠ .null → t ≠ f → t ≠ .object →
+      (hasCase safeConvCases ("convertFrom" ++ vtName f) (vtName t)
+        && (safeConvCases.any fun e => e.1 == "Convert" && e.2.1 == vtName f && e.2.2 != "break"))
+        = !isConvErr (convertSafe (sampleV f) t) := by
+  decide
+
 end TieA
 end Verif
